@@ -172,7 +172,7 @@ class World:
 
     # --------------------------------------------------- failure bookkeeping
     def crude_signature(self, program, oracle):
-        return oracle
+        return "%s|kf=%s|complex=%s" % (oracle, program.get("kf_zone"), program.get("complex"))
 
     def matches_finding(self, entry, program, oracle):
         need = entry.get("needs", {})
